@@ -942,3 +942,32 @@ func (c *Ctx) redisPollBounded(r *redisRoles, rule string) {
 		c.Decide(rule, fn, "poll sleeps between polls", nil, false, "the polling waiter does not sleep between polls")
 	}
 }
+
+// putReturnsOwnRecord is C02.R6: Put (and a successful CasByVersion) returns the record it wrote itself - the local
+// copy whose version it assigned - not a record read back from the storage.
+func (c *Ctx) putReturnsOwnRecord(rule string, fn *ssa.Function, encode *ssa.Function, isStore func(ssa.Instruction) ssa.Value) {
+	// the cell that was written
+	var cell ssa.Value
+	for _, f := range withClosures(fn) {
+		ir.Instrs(f, func(in ssa.Instruction) {
+			if v := isStore(in); v != nil {
+				cell = v
+			}
+		})
+	}
+	for _, ret := range ir.Returns(fn) {
+		idx := ir.ErrResultIndex(fn)
+		if idx < 0 || ir.ClassifyErr(ir.ResultValue(ret, idx), ret.Block()) == ir.ErrNonNil {
+			continue
+		}
+		ok := false
+		for _, v := range []ssa.Value{ret.Results[0], ir.ResultValue(ret, 0)} {
+			if u, isU := v.(*ssa.UnOp); isU && cell != nil {
+				if u.X == cell {
+					ok = true
+				}
+			}
+		}
+		c.Decide(rule, fn, "returns the record it wrote", ret, ok, "the operation returns a record read back from the storage instead of the one it wrote: a concurrent writer in between makes a successful write report somebody else's version and value (the same version is handed to several writers)")
+	}
+}
